@@ -161,8 +161,10 @@ fn judge(cfg: &Config, ops: &[Op]) -> Vec<(&'static str, String)> {
         if !mesh_ok(o, l, n, h) {
             bad.push(("build-ok-invalid-topic-mesh", format!("topic {} mesh set out={o} low={l} n={n} high={h}", TOPICS[t])));
         }
+        // only topics with an explicit size entry (others fall back to the default, judged below)
+        let explicit = ops.iter().any(|o| matches!(o, Op::TMaxTx(tt, _) if *tt == t));
         let tx = cfg.max_transmit_size_for_topic(&t_h);
-        if tx < 100 {
+        if explicit && tx < 100 {
             bad.push(("build-ok-small-topic-transmit-size", format!("topic {} max_transmit_size {tx}", TOPICS[t])));
         }
     }
@@ -374,7 +376,8 @@ fn heartbeat_case(check: &Check, cfg: Config, ops: &[Op], rng: &mut Rng) {
                 0 => rig.drop_peer(rng, &mut log),
                 1 => {
                     let ts = pick_topics(rng, &all_topics);
-                    rig.add_peer(rng, &ts, rng.bool(), &mut log)
+                    let graft = rng.bool();
+                    rig.add_peer(rng, &ts, graft, &mut log)
                 }
                 2 => {
                     let _ = rig.b.unsubscribe(&IdentTopic::new(*rng.pick(&all_topics[..3])));
@@ -428,6 +431,8 @@ pub fn run(args: &Args) -> i32 {
          all history pairs; transmit sizes around 100; PRNG mixed sequences); non-trivial = build() returned Ok; distinct by call sequence. \
          heartbeat half: accepted config x synthetic peer set x driver script; non-trivial = all 3 heartbeats ran (or one panicked); distinct by (sequence, driver log)",
     );
+    // accepted configs; kept apart by whether they satisfy the statement's inequalities, so that the
+    // heartbeat half always spends most of its budget on configs that *should* be safe
     let mut accepted: Vec<(Vec<Op>, Config)> = vec![];
     // (A)
     for n in 0..=8usize {
@@ -488,8 +493,12 @@ pub fn run(args: &Args) -> i32 {
     if accepted.is_empty() {
         check.inconclusive("no accepted config to drive heartbeats with");
     } else {
+        let (good, bad): (Vec<_>, Vec<_>) = accepted.iter().partition(|(ops, cfg)| judge(cfg, ops).is_empty());
+        check.note("accepted_pool_satisfying_inequalities", json!(good.len()));
+        check.note("accepted_pool_violating_inequalities", json!(bad.len()));
         vmon::par_cases(&check, nhb, args.threads, |_, rng| {
-            let (ops, cfg) = &accepted[rng.usize(accepted.len())];
+            let pool = if bad.is_empty() || (!good.is_empty() && rng.chance(3, 4)) { &good } else { &bad };
+            let (ops, cfg) = pool[rng.usize(pool.len())];
             heartbeat_case(&check, cfg.clone(), ops, rng);
             check.count("heartbeat_cases", 1);
         });
